@@ -6,6 +6,8 @@
 //! EVERY array returned by EVERY step (members of lists / pairs included) and compares, for the modelled steps, outcome
 //! class and SHAPE with the store machine of `lean/ArrModel/C01.lean` (driver answer).  Steps named `u.<op>` are public
 //! operations outside the modelled set: monitor only; their recorded result shape keeps the model store aligned.
+//! Steps named `s.<op>` are the string-array operations (modelled through the lifting shapes of `ArrModel/C17Lift.lean`; the prefix keeps
+//! `s.add`, `s.multiply`, `s.equal`, `s.split` … apart from the numeric / structural operations of the same name).
 //! In `exec` every step that has an `impl … for Result<Array<T>, ArrayError>` is run a second time on `Ok(array)` (the chained
 //! receiver): the twin's arrays are monitored, its class and shapes must equal the plain call's; the five getters are asked on both
 //! receivers for every returned array; option arguments are also passed in their other spellings (String / &str / enum).
